@@ -89,6 +89,7 @@ func LoadWorld(repo string) (*World, error) {
 		w.spkgs[p.PkgPath] = spkgs[i]
 		w.fset = p.Fset
 	}
+	w.regAllocKeys()
 	// contracts: //@ lines of verif_contracts*.go in each package + stdlib file
 	w.cons = NewContracts()
 	std, err := os.ReadFile(filepath.Join(verifDir(), "contracts", "stdlib.contracts"))
@@ -138,6 +139,14 @@ func (w *World) isRepoNamed(t types.Type) (*types.Named, bool) {
 }
 
 func typeStr(t types.Type) string {
+	if b, ok := types.Unalias(t).(*types.Basic); ok {
+		switch b.Kind() {
+		case types.Uint8:
+			return "uint8"
+		case types.Int32:
+			return "int32"
+		}
+	}
 	return types.TypeString(t, func(p *types.Package) string { return shortPath(p.Path()) })
 }
 
